@@ -109,3 +109,16 @@ pub fn find_const<'a>(file: &'a File, owner: &str, name: &str) -> Result<&'a syn
     }
     Err(format!("const `{owner}::{name}` not found"))
 }
+
+/// A `fn` item nested in the body of another function.
+pub fn find_nested_fn<'a>(file: &'a File, owner: &str, outer: &str, name: &str) -> Result<FnRef<'a>, String> {
+    let o = find_fn(file, owner, outer)?;
+    for st in &o.block.stmts {
+        if let syn::Stmt::Item(Item::Fn(f)) = st {
+            if f.sig.ident == name {
+                return Ok(FnRef { sig: &f.sig, block: &f.block });
+            }
+        }
+    }
+    Err(format!("nested function `{name}` not found in `{owner}::{outer}`"))
+}
